@@ -26,6 +26,10 @@ def gen_lines(rnd, tier):
             # a method whose self is absorbed by *args
             L.append("verify|o|1|0|1:M%s:H0.0.1.%d|0" % (si, k))
             L.append("verify|c|1|0|1:M%s:H0.0.1.%d|0" % (si, k))
+        for o, v, k in itertools.product(range(3), (0, 1), (0, 1)):
+            # a method whose self has a default as well
+            L.append("verify|o|1|0|1:M%s:D0.%d.%d.%d|0" % (si, o, v, k))
+            L.append("verify|c|1|0|1:M%s:D0.%d.%d.%d|0" % (si, o, v, k))
     n = {"quick": 1500, "thorough": 40000}[tier]
     for _ in range(n):
         vt = rnd.choice("oc")
@@ -48,8 +52,34 @@ def gen_lines(rnd, tier):
                 else:
                     c = rnd.choice(["B", "N", "P"])
             elems.append("%d:%s:%s" % (j, d, c))
-        L.append("verify|%s|%d|%d|%s|%d" % (vt, rnd.random() < 0.4, rnd.random() < 0.6, ";".join(elems), rnd.randint(0, k)))
+        if k >= 2 and rnd.random() < 0.3:
+            # verified, then an ancestor is given a further base that brings the first `nextra` members, then verified again
+            nextra = rnd.randint(1, k - 1)
+            L.append("verify2|%s|%d|%d|%s|%d|%d" % (vt, rnd.random() < 0.4, rnd.random() < 0.6, ";".join(elems), rnd.randint(0, k - nextra), nextra))
+        else:
+            L.append("verify|%s|%d|%d|%s|%d" % (vt, rnd.random() < 0.4, rnd.random() < 0.6, ";".join(elems), rnd.randint(0, k)))
     return L
+
+
+def run_model(lines):
+    """verify2 lines are two verifications for the model: without and with the members the re-basing brings"""
+    ml, idx = [], []
+    for l in lines:
+        f = l.split("|")
+        if f[0] == "verify2":
+            es = f[4].split(";")
+            ml.append(to_model("|".join(["verify"] + f[1:4] + [";".join(es[int(f[6]):])])))
+            ml.append(to_model("|".join(["verify"] + f[1:5])))
+            idx.append(2)
+        else:
+            ml.append(to_model(l))
+            idx.append(1)
+    out = core.run_model("verify", ml)
+    res, p = [], 0
+    for n in idx:
+        res.append(" ## ".join(out[p:p + n]))
+        p += n
+    return res
 
 
 def to_model(line):
@@ -61,6 +91,8 @@ def to_model(line):
             c = "N"            # on an instance the property has been evaluated: a plain (non-callable) value
         if d == "A" and c != "X":
             c = "N"            # any present attribute
+        if c[0] == "D":
+            c = "G" + c[1:]    # the signature left once the (defaulted) self is dropped
         es.append("%s:%s:%s" % (n, d, c))
     return "|".join(f[:4] + [";".join(es)])
 
@@ -85,14 +117,18 @@ def judge(chk, lines, outs):
         if "ORDER-MISMATCH" in want:
             bad.append((i, "%s: namesAndDescriptions(all=True) does not list inherited names first then own names in definition order: %s" % (l, want)))
             continue
-        g = strip_codes(got).split()
-        w = want.split()
-        if g[0] != w[0] or sorted(g[1:]) != sorted(w[1:]):
-            bad.append((i, "%s: verification result %r, the contract (declared / attributes present / every admitted call shape binds) gives %r" % (l, got, want)))
-        if w[0] == "multi":
-            chk.count("multiple_failures")
-        if w[0] != "ok":
-            chk.count("rejections")
+        if l.startswith("verify2"):
+            chk.count("verified_again_after_rebasing")
+        for got1, want1 in zip(got.split(" ## "), want.split(" ## ")):
+            g = strip_codes(got1).split()
+            w = want1.split()
+            if g[0] != w[0] or sorted(g[1:]) != sorted(w[1:]):
+                bad.append((i, "%s: verification result %r, the contract (declared / attributes present / every admitted call shape binds) gives %r" % (l, got, want)))
+                break
+            if w[0] == "multi":
+                chk.count("multiple_failures")
+            if w[0] != "ok":
+                chk.count("rejections")
     return bad
 
 
@@ -101,8 +137,7 @@ def check(tier):
     chk.obligations(THEOREMS)
     rnd = core.rng("C17")
     lines = gen_lines(rnd, tier)
-    mlines = [to_model(l) for l in lines]
-    model = core.run_model("verify", mlines)
+    model = run_model(lines)
     divs, fails = [], []
     for m in ("c", "py"):
         try:
@@ -141,7 +176,7 @@ def replay(path):
     script = rep["script"]
     mode = rep.get("mode", "c")
     out = core.run_impl("verify", script, mode)
-    model = core.run_model("verify", [to_model(l) for l in script])
+    model = run_model(script)
     bad = judge(_Null(), script, out)
     for l, o, m in zip(script, out, model):
         print("%s\n   impl || oracle: %s\n   model: %s" % (l, o, m))
